@@ -323,7 +323,7 @@ theorem map_entries_mp {kt vt kt' vt' : Ty} {kvs kvs' : List (GoVal × GoVal)} (
   | refl =>
     refine ⟨rfl, rfl, fun e he => ⟨e, he, rfl, .refl _⟩, fun e he => ⟨e, he, rfl, .refl _⟩, fun kk => ?_⟩
     cases lookupKey kk kvs <;> simp [OptMP, MP.refl]
-  | map _ _ hv hk hn hm hp =>
+  | map _ _ hv hk hn hm hp ht =>
     refine ⟨rfl, by rw [hm.length_eq, hp.length_eq], ?_, ?_, ?_⟩
     · intro e he
       obtain ⟨e', h1, h2⟩ := hm.mem_left e he
@@ -443,7 +443,7 @@ theorem mapView_mp {b b' : GoVal} (h : MP b b') :
       cases b <;> simp [mapView] at hb
       next kt vt kvs => subst hb; exact ⟨rfl, vt, .refl _⟩
     | _ => simp [RRel]
-  | map kt vt hv hk hn hm hp => exact ⟨rfl, vt, MP.map kt vt hv hk hn hm hp⟩
+  | map kt vt hv hk hn hm hp ht => exact ⟨rfl, vt, MP.map kt vt hv hk hn hm hp ht⟩
   | mapVals kt vt hv hn hm => exact ⟨rfl, vt, MP.mapVals kt vt hv hn hm⟩
   | _ => simp [mapView, RRel]
 
@@ -600,7 +600,7 @@ theorem equalTL_mp_aux : ∀ n (a : GoVal), sizeOf a < n → ∀ a' b b', MP a a
         cases a with
         | map kt vt kvs => exact key rfl (.refl _)
         | _ => exact RRel.of_eq (fun _ => rfl) rfl
-      | map kt vt hv hk hn hm hp => exact key rfl (MP.map kt vt hv hk hn hm hp)
+      | map kt vt hv hk hn hm hp ht => exact key rfl (MP.map kt vt hv hk hn hm hp ht)
       | mapVals kt vt hv hn hm => exact key rfl (MP.mapVals kt vt hv hn hm)
       | _ => exact RRel.of_eq (fun _ => rfl) rfl
 
@@ -710,7 +710,7 @@ theorem containsW_mp {u u' e e' : GoVal} (hu : MP u u') (he : MP e e') :
   | array t hl =>
     simp only [wrapOf, valueOf, containsW, seqView, bind, Res.bind_ok]
     exact containsList_mp hl he
-  | map kt vt hv hk hn hm hp => exact mapCase (MP.map kt vt hv hk hn hm hp)
+  | map kt vt hv hk hn hm hp ht => exact mapCase (MP.map kt vt hv hk hn hm hp ht)
   | mapVals kt vt hv hn hm => exact mapCase (MP.mapVals kt vt hv hn hm)
   | mapSlice hm =>
     simp only [wrapOf, valueOf, containsW]
